@@ -62,7 +62,7 @@ def import_repo():
 # ----------------------------------------------------------------------------------
 # TLAPS
 
-def run_tlaps(ctx, module, what, timeout=1500):
+def run_tlaps(ctx, module, what, timeout=1500, deps=()):
     """Re-check an unbounded proof (spec/<module>.tla) with the TLA+ proof system.  The proof is part of /verif, no change
     of the code under test can invalidate it; the re-check guards the specification itself.  Back-end provers run under
     wall-clock limits, so on a loaded machine an obligation may time out: a second attempt gets four times the limits,
@@ -73,7 +73,8 @@ def run_tlaps(ctx, module, what, timeout=1500):
         return None
     d = ctx.scratch / key
     d.mkdir(exist_ok=True)
-    shutil.copy(str(SPEC / (module + '.tla')), str(d / (module + '.tla')))
+    for mod in (module,) + tuple(deps):              # TLAPS.tla and the standard modules come from tlapm's own library
+        shutil.copy(str(SPEC / (mod + '.tla')), str(d / (mod + '.tla')))
     last = ''
     for threads, stretch in ((4, 3), (2, 12)):
         try:
